@@ -2,7 +2,7 @@ import BfeVerif.Common.Proto
 import BfeVerif.C52.Model
 /-!
   C52 driver.
-  op  = `cors hr=<0|1>;m=<hex>;o=<hex>;a=<hex>;b=<hdr>;r=<rules>`
+  op  = `cors hr=<0|1>;m=<hex>;o=<hex>;a=<hex>;b=<hdr>;r=<rules>;h=<hex Access-Control-Request-Headers>`
         hdr   = 7 fields `acao|acac|acam|acah|acma|aceh|vary`, field = `_` (key absent) or hex values joined by `,`
         rules = `_` or rules joined by `/`; rule = `match:origins:creds:expose:methods:headers:maxage`
                 (lists = `_` or hex joined by `,`; maxage = `n` or a decimal integer)
@@ -58,7 +58,7 @@ def renderKind : Kind → String | .P => "P" | .N => "N"
 def run (op impl : String) : Ans :=
   let bad : Ans := { model := "bad-op", verdict := "skip" }
   if !op.startsWith "cors " then bad else
-  match ((op.drop 5).toString.splitOn ";") with
+  match ((op.drop 5).toString.splitOn ";").take 6 with
   | [hr, m, o, a, b, r] =>
     match kv hr "hr", (kv m "m").bind bytesOfHex, (kv o "o").bind bytesOfHex, (kv a "a").bind bytesOfHex,
           (kv b "b").bind parseHdr, (kv r "r").bind parseRules with
@@ -80,6 +80,7 @@ def run (op impl : String) : Ans :=
                         else if r.origins.contains sPctOrigin then "pct" else "exact"] ++
           [if backend.vary.isEmpty then "vary-none" else if backend.vary.length > 1 then "vary-multi"
            else if varyCovers backend.vary then "vary-has" else "vary-other"] ++
+          (if granted && backend.acac == [sTrue] then ["backend-acac"] else []) ++
           (if granted && !(isPreflight req && k == Kind.N) then ["nt"] else [])
         match parseResult impl with
         | none => { model := model, verdict := "FAIL:unparsable-result", tags := tags }
